@@ -85,6 +85,27 @@ def c_deref_seq(eng, st, fr, f, args, site):
     return [(st, mk_slice(vw))]
 
 
+@contract(r"^(std|core)::convert::AsRef::as_ref$|^(std|core)::borrow::Borrow::borrow$|^(std|core)::convert::<impl (std|core)::convert::AsRef<U> for &(mut )?T>::as_ref$"
+          r"|^<str as (std|core)::convert::AsRef<(str|\[u8\])>>::as_ref$|^(std|core)::convert::<impl (std|core)::convert::AsRef<(str|\[u8\])> for str>::as_ref$"
+          r"|^<\[T\] as (std|core)::convert::AsRef<\[T\]>>::as_ref$|^(std|core)::convert::<impl (std|core)::convert::AsRef<\[T\]> for \[T\]>::as_ref$")
+def c_as_ref_generic(eng, st, fr, f, args, site):
+    """`AsRef<str>` / `AsRef<[u8]>` on a generic parameter (or through the `&T` blanket impl): for the byte-sequence
+    types the engine models (String, &str, Vec<u8>, slices, any level of `&`) the result is a view of the same bytes."""
+    rt = ret_ty(eng, site)
+    rs = eng.T.s(rt) if rt is not None else ""
+    if not re.match(r"^&(mut )?(str|\[u8\])$", rs):
+        return None
+    v = args[0]
+    for _ in range(4):
+        vw = view(eng, st, v)
+        if vw is not None:
+            return [(st, mk_slice(vw))]
+        if not isinstance(v, Ref):
+            return None
+        v = deref(eng, st, v)
+    return None
+
+
 # ------------------------------------------------------------------ indexing
 
 
